@@ -44,8 +44,8 @@ def run(ctx):
                 if bb.exit != 0 and not missing_dep: diffs.append('declared variant fails (%s) while the discovered one succeeds' % (bb.err or '')[:60])
                 elif bb.exit == 0:
                     if sorted(ba.started) != sorted(bb.started): diffs.append('commands run: %s (discovered) vs %s (declared)' % (sorted(ba.started), sorted(bb.started)))
-                    fa = {n: c for n, (m, c) in ba.files.items() if not n.endswith('.d') and n != 'build.ninja'}
-                    fb = {n: c for n, (m, c) in bb.files.items() if not n.endswith('.d') and n != 'build.ninja'}
+                    fa = {n: c for n, (m, c) in ba.files.items() if not n.endswith('.d') and n not in ('build.ninja', 'part.ninja')}
+                    fb = {n: c for n, (m, c) in bb.files.items() if not n.endswith('.d') and n not in ('build.ninja', 'part.ninja')}
                     if fa != fb: diffs.append('final files differ: %s' % sorted(n for n in set(fa) | set(fb) if fa.get(n) != fb.get(n))[:5])
                     bad = ec.oracle_c04(a, sa, ba)
                     # ordering against the recorded (generated) dependencies, ground truth
